@@ -913,11 +913,21 @@ func withHelpers(p *Prog, fn *ssa.Function, depth int) []*ssa.Function {
 			return
 		}
 		instrs(f, func(_ *ssa.BasicBlock, _ int, in ssa.Instruction) {
-			cl, ok := in.(ssa.CallInstruction)
-			if !ok {
-				return
+			var sc *ssa.Function
+			switch x := in.(type) {
+			case ssa.CallInstruction:
+				sc = x.Common().StaticCallee()
+			case *ssa.MakeClosure:
+				// a method value used as a callback (`m.Range(scan.visit)`):
+				// go/ssa wraps it in a synthetic $bound function
+				if w, ok := x.Fn.(*ssa.Function); ok && w.Synthetic != "" && len(w.Blocks) > 0 {
+					instrs(w, func(_ *ssa.BasicBlock, _ int, y ssa.Instruction) {
+						if cl, ok := y.(ssa.CallInstruction); ok && cl.Common().StaticCallee() != nil {
+							sc = cl.Common().StaticCallee()
+						}
+					})
+				}
 			}
-			sc := cl.Common().StaticCallee()
 			if sc == nil || sc.Blocks == nil || seen[sc] || sc.Object() == nil || sc.Object().Exported() || sc.Pkg != fn.Pkg || anchorNames[sc.Name()] {
 				return
 			}
